@@ -161,8 +161,9 @@ pub const DICT: [&str; 134] = [
     // the wrong kind (a function where a value is wanted, an inline function that is only declared)
     "'\"'", "'\\\"'", "'\u{e9}'", "\"h\u{e9}\u{65e5}\"", "\u{e9}", "(-2147483647 - 1)", "/ -1", "2147483647", "proto_only",
     "inline void proto_only();", "if (X) continue;", "strobe(main);", "X = main;",
-    // bank numbers: other banks, a huge but representable one
-    "bank2", "bank3", "bank4000000000",
+    // bank numbers: other banks (huge ones belong to the bank_boundary kind: under the 3E schemes each of them is a
+    // ten-second hang of the reference builder, a known finding)
+    "bank2", "bank3", "bank255",
 ];
 
 #[derive(Clone, Copy, Debug, PartialEq, Eq)]
